@@ -419,6 +419,44 @@ def run(chk):
             else:
                 a._static_mods = [Mod(f'[UNIMOD:{e.id}]@{rng.choice("ACDEFGHIK")}', 1)]
             ocases.append((a, {'monoisotopic': mono, 'charge': rng.choice([0, 1, 2, -1])}))
+    # every ion of the quantifier's list with count 1 (outside the known-finding region), in the string and as argument,
+    # both modes, with and without a charge
+    from peptacular.proforma.proforma_parser import ProFormaAnnotation as _PA
+    from peptacular.proforma.proforma_dataclasses import Mod as _Mod
+    for sym, q in cm.ADDUCT_IONS:
+        for ion in {f'+{sym}{q}', f'{sym}{q}'} | ({f'+{sym}+2'} if q == '2+' else set()):
+            for mono in (True, False):
+                for z in (None, 1, 2):
+                    seq = rng.choice(['PEPTIDE', 'ACDK', 'MW', 'G'])
+                    ocases.append((_PA(_sequence=seq, _charge=z if z is not None else 1, _charge_adducts=[_Mod(ion, 1)]), {'monoisotopic': mono}))
+                    ocases.append((_PA(_sequence=seq), {'monoisotopic': mono, 'charge_adducts': ion, **({} if z is None else {'charge': z})}))
+        # two different ions, each once
+        other = rng.choice([x for x in cm.ADDUCT_IONS if x[0] != sym])
+        pair = f'+{sym}{q},+{other[0]}{other[1]}'
+        for mono in (True, False):
+            ocases.append((_PA(_sequence='PEPTIDE', _charge=2, _charge_adducts=[_Mod(pair, 1)]), {'monoisotopic': mono}))
+            ocases.append((_PA(_sequence='PEPTIDE'), {'monoisotopic': mono, 'charge_adducts': pair}))
+    # formula modifications with repeated elements / isotopes at every kind of position
+    for fm in [f for f in cm.FORMULAS] + [cm.gen_formula(rng) for _ in range(60 if tier == 'quick' else 2000)]:
+        pos = rng.choice(['n', 'c', 'i', 'u', 'l', 's', 'v'])
+        a = _PA(_sequence=rng.choice(['PEPTIDE', 'ACDEFGHIK', 'MK']))
+        m = [_Mod(fm, rng.choice([1, 1, 2]))]
+        if pos == 'n':
+            a._nterm_mods = m
+        elif pos == 'c':
+            a._cterm_mods = m
+        elif pos == 'i':
+            a._internal_mods = {rng.randint(0, len(a._sequence) - 1): m}
+        elif pos == 'u':
+            a._unknown_mods = m
+        elif pos == 'l':
+            a._labile_mods = m
+        elif pos == 'v':
+            from peptacular.proforma.proforma_dataclasses import Interval as _Iv
+            a._intervals = [_Iv(0, 2, False, m)]
+        else:
+            a._static_mods = [_Mod(f'[{fm}]@{rng.choice(a._sequence)}', 1)]
+        ocases.append((a, {'monoisotopic': rng.random() < 0.5}))
     spec_lines = []
     for a, kw in ocases:
         k2 = {k: v for k, v in kw.items() if k != 'precision'}
@@ -457,12 +495,13 @@ def run(chk):
     def spec_defined(c):
         return spec_of[id(c)].startswith('ok ') and (cm.has_mods(c[0]) or (c[1].get('charge') or c[0]._charge or 0) != 0)
 
-    chk.oracle('mass_vs_nist_specification', ocases, o_mass, nontrivial_fn=spec_defined, key_fn=lambda c: json.dumps(obj_of(*c), sort_keys=True))
+    chk.oracle('mass_vs_nist_specification', ocases, o_mass, nontrivial_fn=spec_defined, key_fn=lambda c: json.dumps(obj_of(*c), sort_keys=True),
+               max_report=10 ** 6)
     for f in chk.failures:
         if f['oracle'] == 'mass_vs_nist_specification' and isinstance(f['case'], str):
             pass
     # make oracle failures replayable: store the structured case
-    _attach_cases(chk, 'mass_vs_nist_specification', ocases, o_mass)
+    _attach_cases(chk, 'mass_vs_nist_specification', ocases, o_mass, classify)
 
     # ------------------------------------------------------------------ oracle 3: label path (loss verbatim, precision last)
     lcases = []
@@ -490,7 +529,7 @@ def run(chk):
                 return f'isotope-labelled: mass(precision={p}) = {r!r} is not the rounding of {with_loss!r}'
         return None
 
-    chk.oracle('label_path_loss_and_precision', lcases, o_label, key_fn=lambda c: json.dumps(obj_of(*c), sort_keys=True))
+    chk.oracle('label_path_loss_and_precision', lcases, o_label, key_fn=lambda c: json.dumps(obj_of(*c), sort_keys=True), max_report=50)
     _attach_cases(chk, 'label_path_loss_and_precision', lcases, o_label)
 
     cm.attach_reach(chk, reach)
@@ -499,24 +538,42 @@ def run(chk):
     return chk.finish(classify)
 
 
-def _attach_cases(chk, name, cases, fn):
-    """replace the repr() of failing cases by replayable objects and shrink them"""
-    n = 0
-    for f in chk.failures:
-        if f['oracle'] != name or isinstance(f['case'], dict):
+def _attach_cases(chk, name, cases, fn, classify_fn=None, keep_unknown=5, keep_known=1):
+    """make the failures of one oracle replayable: structured case, known-finding triage BEFORE the report cap (so that
+    known findings cannot crowd out a new violation), shrinking of the failures that are kept"""
+    by_repr = {}
+    for c in cases:
+        by_repr.setdefault(repr(c), c)
+    mine = [f for f in chk.failures if f['oracle'] == name]
+    others = [f for f in chk.failures if f['oracle'] != name]
+    kept, n_known, n_unknown = [], {}, 0
+    for f in mine:
+        c = by_repr.get(f['case']) if not isinstance(f['case'], dict) else None
+        if c is None:
+            kept.append(f)
             continue
-        for c in cases:
-            if repr(c) == f['case']:
-                a, kw = shrink(c, fn)
-                f['case'] = obj_of(a, kw)
-                try:
-                    f['detail'] = str(fn((a, kw)))
-                except Exception as e:  # noqa
-                    f['detail'] = f'unexpected {type(e).__name__}: {e}'
-                f['function'] = 'peptacular.mass'
-                f['rerun'] = f'./check {chk.pid} --replay <this file>'
-                break
-        n += 1
+        f2 = dict(f)
+        f2['case'] = obj_of(*c)
+        kid = classify_fn(f2) if classify_fn else None
+        if kid:
+            if n_known.get(kid, 0) >= keep_known:
+                continue
+            n_known[kid] = n_known.get(kid, 0) + 1
+            a, kw = c
+        else:
+            if n_unknown >= keep_unknown:
+                continue
+            n_unknown += 1
+            a, kw = shrink(c, fn)
+            try:
+                f2['detail'] = str(fn((a, kw)))
+            except Exception as e:  # noqa
+                f2['detail'] = f'unexpected {type(e).__name__}: {e}'
+        f2['case'] = obj_of(a, kw)
+        f2['function'] = 'peptacular.mass'
+        f2['rerun'] = f'./check {chk.pid} --replay <this file>'
+        kept.append(f2)
+    chk.failures[:] = others + kept
 
 
 def shrink(c, fn):
